@@ -295,7 +295,13 @@ pub fn run(rep: &mut Report) {
         nodes.push(Node::Text("|".into()));
         let v = print(&nodes, rng, true);
         let m = GROUP_TAILS[(idx as usize) % GROUP_TAILS.len()];
-        let pattern = format!("<{{({}{} rest)}}>", v, m);
+        // the group with and without a width specification of its own (a maximum far beyond any output, a
+        // minimum below it, left alignment): none of them may change what is rendered before the error
+        let gspec = ["", ":.100000", ":1.100000", ":<2.99999"][((idx / GROUP_TAILS.len() as u64) % 4) as usize];
+        let pattern = format!("<{{({}{} rest){}}}>", v, m, gspec);
+        if !gspec.is_empty() {
+            rep.count("malformed_tail_in_group_with_group_width_cases", 1);
+        }
         let ctx = plain_ctx(rng);
         let now = Utc::now();
         let expected: String = format!("<{}", text_of(&render(&nodes, &ctx, &now.with_timezone(&Local), &now)));
